@@ -610,6 +610,8 @@ def index_term(t, it):
 
 
 def const_term(o):
+    if o.get('promoted') and len(o.get('promoted_consts') or []) == 1:
+        return const_term(o['promoted_consts'][0])
     name = o.get('name')
     ty = o.get('ty', '?')
     if 'f' in o:
